@@ -50,15 +50,18 @@ def alphabet(m):
 
 
 def make_cvr(i, b, t=True, f=False):
+    # every card also carries an unrelated earlier contest "c0" (overvoted on even cards): tallies of one contest
+    # must not depend on what the card shows in another
+    c0 = {"A": True, "B": True} if i % 2 == 0 else {"A": True}
     if b is None:
-        return CVR(id=f"b{i}", votes={"other": {"X": True}})
+        return CVR(id=f"b{i}", votes={"c0": c0, "other": {"X": True}})
     v = {}
     for c, s in enumerate(b):
         if s == 1:
             v[NAMES[c]] = f
         elif s == 2:
             v[NAMES[c]] = t
-    return CVR(id=f"b{i}", votes={CID: v})
+    return CVR(id=f"b{i}", votes={"c0": c0, CID: v})
 
 
 def contest(m, winners, kind, share=None, cards=0):
@@ -138,7 +141,7 @@ def judge(m, prof, enc=(True, False)):
                                     if enforce and any(sum(marks[i]) > k for i in pool):
                                         continue
                                     try:
-                                        Contest.tally({CID: con}, cvrs, enforce_rules=enforce)
+                                        Contest.tally({"c0": contest(2, (0,), Contest.SOCIAL_CHOICE_FUNCTION.PLURALITY, cards=len(pool)), CID: con}, cvrs, enforce_rules=enforce)
                                         a.find_margin_from_tally()
                                         tm = a.margin
                                     except Exception as e:  # noqa
@@ -196,7 +199,7 @@ def judge(m, prof, enc=(True, False)):
                         if not enforce and any(sum(marks[i]) > 1 for i in pool):
                             continue
                         try:
-                            Contest.tally({CID: con}, cvrs, enforce_rules=enforce)
+                            Contest.tally({"c0": contest(2, (0,), Contest.SOCIAL_CHOICE_FUNCTION.PLURALITY, cards=len(pool)), CID: con}, cvrs, enforce_rules=enforce)
                             a.find_margin_from_tally()
                             tm = a.margin
                         except Exception as e:  # noqa
